@@ -136,7 +136,10 @@ class _OsProxy(object):
         if w is not None and pid == w.pid:
             w.syscalls.append('kill:%d' % sig)
             if w.reaped_seen:
+                # this object's own waitpid() has collected the child: the number now belongs to nobody, or to somebody
+                # else - a signal sent to it is a stale handle in use.  Recorded, answered as the kernel would, not sent.
                 w.kill_after_reap = True
+                raise ProcessLookupError(errno.ESRCH, 'No such process')
             if w.stolen:
                 # the pid is nobody's (or already somebody else's): what the kernel answers for a
                 # pid that does not exist - never signal a number that may have been recycled
@@ -384,6 +387,14 @@ class Case(object):
         ev.update(self.observe())
         ev['touched'] = bool(self.intruder.touched()) if self.intruder is not None else False
         ev['sys'] = list(self.syscalls)
+        ev['kar'] = bool(self.kill_after_reap)
+        self.kill_after_reap = False
+        if name == 'Del':
+            # an exception that travelled through pexpect's frames (TIMEOUT, EOF, a harness interruption) leaves the usual
+            # exception <-> traceback <-> frame cycle behind, which holds the object: only histories in which no
+            # operation raised are judged
+            raised_before = any(e.get('e') == 'op' and e.get('exc') for e in self.events)
+            ev['cycle'] = bool(getattr(self, 'del_cycle', False)) and not raised_before
         self.events.append(ev)
 
     def call(self, name, arg):
@@ -424,9 +435,21 @@ class Case(object):
             _armed.clear()
         c = None
         if name == 'Del':
-            self.child = None
-            self.gone = True
-            gc.collect()
+            # dropping the last reference releases the object at once (reference counting); an object that is only
+            # freed by the cycle collector keeps its descriptor and its child until some later, unrelated allocation
+            was = gc.isenabled()
+            gc.disable()
+            try:
+                before = nfds()
+                self.child = None
+                self.gone = True
+                after_drop = nfds()
+                gc.collect()
+                after_gc = nfds()
+            finally:
+                if was:
+                    gc.enable()
+            self.del_cycle = (after_gc < after_drop)
         return ret, rv
 
     READ_TIMEOUT = 0
